@@ -27,7 +27,7 @@ META = {
                  "multilinearity and transpose invariance proved for all sizes; executable Q model of inf_retis / quick_prob / "
                  "find_blocks / permanent_prob / fast_glynn_perm: structural theorems for all sizes (busy rows/columns zero, idle-block "
                  "reduction, quick_prob doubly stochastic) + refinement to the spec by exhaustive vm_compute sweeps (bound in the "
-                 "statement) + Glynn = permanent on symbolic entries (n <= 4); exhaustive small-scope lock-step of the extracted model, "
+                 "statement) + Glynn = permanent on symbolic entries (n <= 7); exhaustive small-scope lock-step of the extracted model, "
                  "the extracted spec and the real REPEX_state methods on every run",
     "text": "Unbounded (every size): Pspec rows and columns sum to 1 when perm != 0 (Laplace expansion of the permanent along an "
             "arbitrary row and column, transpose invariance), zero weight gives zero probability, Pspec is unchanged and perm scales "
@@ -40,7 +40,7 @@ META = {
             "(234 k states), 6 plus-ensembles x every support multiset x every busy set (59 k), weighted staircases through "
             "find_blocks / permanent_prob / Glynn with up to 3 plus-ensembles (weights {1,2} x every busy set, weights {1,2,3} idle); "
             "independence of np.argsort's tie order (0/1 up to 4, weighted {1,2} up to 3 plus-ensembles); the Gray-code loop of "
-            "fast_glynn_perm and the plain Glynn sum equal the permanent for every rational matrix of size <= 4 (symbolic, field). "
+            "fast_glynn_perm equals the permanent for every rational matrix of size <= 7 and the plain Glynn sum for size <= 5 (symbolic, field). "
             "The model and the spec are tied to /repo on every run: exhaustive 0/1 staircases x all lock subsets x row orders, random "
             "positive integer weights (block sizes 2..9), direct calls of each method, prob after real add_traj/swap/lock/unlock "
             "sequences, and the statement itself evaluated on the implementation's outputs against exact rational permanents.",
@@ -51,7 +51,7 @@ META = {
             "uses the stable order; independence from the tie order is a bounded theorem and is re-checked at run time with numpy's "
             "actual answers. random_prob (blocks > 12 paths, Monte Carlo) is a Section variable outside the exactness claim. Partial: "
             "general-size quick_prob = Pspec (only doubly-stochasticity is proved for all sizes; equality is bounded) and general-size "
-            "Glynn = perm (n <= 4 symbolic; larger sizes checked by computation in the correspondence run) are not proved. "
+            "Glynn = perm (n <= 7 symbolic; larger sizes checked by computation in the correspondence run) are not proved. "
             "Non-staircase zero patterns (observation O1) are outside the property and only reported as an observation.",
     "design_ref": "4/C02",
 }
@@ -781,7 +781,7 @@ def run(ctx):
         "extraction: ExtrOcamlBasic only; ocaml/util.ml + ocaml/c02_driver.ml",
         "py/checks/c02.py generators, encoders, the exact integer permanent (third oracle), tolerance 1e-12",
         "random_prob (blocks > 12, Monte Carlo) is a Section variable of the model: outside the exactness claim",
-        "Glynn's formula = permanent is proved for n <= 4 symbolically and checked by computation (model vs exact permanent, sizes <= 8) beyond; floating point not modelled",
+        "Glynn's formula = permanent is proved for n <= 7 symbolically and checked by computation (model vs exact permanent, sizes <= 8) beyond; floating point not modelled",
     ]
     ctx.assumptions += [
         "weights are small positive integers so every ==/!= test of the code is exact; results compared within 1e-12",
